@@ -277,7 +277,8 @@ def generate(log=None):
             translated[c['name']] = tr
             n = c['name']
             txt = [HEADER, f'Definition {n}_e : elem :=\n  {celem(tr)}.\n',
-                   f'Lemma {n}_deriv : deriv_ok {n}_e = true.\nProof. vm_compute. reflexivity. Qed.\n']
+                   f'Lemma {n}_deriv : deriv_ok {n}_e = true.\nProof. vm_compute. reflexivity. Qed.\n',
+                   f'Lemma {n}_vars : vars_ok {n}_e = true.\nProof. vm_compute. reflexivity. Qed.\n']
             names_all.append(n)
             if tr.family == 'h1':
                 txt.append(f'Lemma {n}_dual : duality_ok {n}_e = true.\nProof. vm_compute. reflexivity. Qed.\n')
@@ -327,6 +328,7 @@ def generate(log=None):
             'Definition global_tables : list (String.string * dtable) :=\n  ['
             + '; '.join(f'("{n}"%string, {n}_table)' for n in names_glob) + '].\n',
             forall_lemma('all_deriv_ok', 'deriv_ok e = true', 'all_elements', names_all, 'deriv'),
+            forall_lemma('all_vars_ok', 'vars_ok e = true', 'all_elements', names_all, 'vars'),
             forall_lemma('h1_dual_ok', 'duality_ok e = true', 'h1_elements', names_dual, 'dual'),
             forall_lemma('h1_pou_ok', 'pou_ok e = true', 'h1_elements', names_dual, 'pou'),
             forall_lemma('lowest_fdual_ok', 'lo_fdual_ok e = true', 'lowest_order_elements', names_flux, 'fdual'),
